@@ -277,6 +277,14 @@ def valueConvert (src tgt : Ty) (s : Src) (dest : Bool) : Res (Option Out × Nat
     else .err .BadType
   | r => r
 
+/-- `mpt_value_convert` of a value without data (`_addr = NULL`): the converter sees a missing source (the number 0); if
+    it refuses, there is nothing a raw copy could be taken from -/
+def valueConvertNull (src tgt : Ty) (dest : Bool) : Res (Option Out × Nat) :=
+  match convNull src tgt dest with
+  | .ok (o, _) => .ok (o, if src = tgt then 0 else 3)
+  | .err _ => if src = tgt then .err .MissingData else .err .BadType
+  | r => r
+
 /-- `mpt_iterator_consume(it, tgt, dest)` on an iterator whose current value has type `src`: `mpt_value_convert` into a
     temporary, copy of the target's size; returns the source type code -/
 def consume (src tgt : Ty) (s : Src) (dest : Bool) : Res (Option Out × Nat) :=
@@ -647,6 +655,27 @@ def convertStringF (tgt : Ty) (strto : List Nat → StrToF) (s : List Nat) (dest
   match convertNumberF tgt strto (s.dropWhile isSpace) dest with
   | .ok (o, n) => if n = 0 then .ok (none, 0) else .ok (o, (s.takeWhile isSpace).length + n)
   | r => r
+
+/-- One token of a text file read through the file iterator (`mpt_iterator_file`, mptplot/values/iterator_file.c) with
+    `mpt_iterator_consume(it, tgt, dest)`: the element converts the token with `mpt_convert_number` (target codes
+    d f t x u i q n y b) into its value buffer; what is handed out is that value.  Result: (stored object, returned code = the type of the
+    iterator's value, `TypeConvertablePtr` = 128). -/
+def fileToken (tgt : Ty) (strto : List Nat → StrToF) (s : List Nat) (dest : Bool) : Res (Option Out × Nat) :=
+  if tgt = .c ∨ tgt = .e then .err .BadType
+  else if tgt.isFloat then
+    match convertNumberF tgt strto s true with          -- the token is always converted into the element's buffer
+    | .ok (some v, _) => .ok (if dest then some (.flt v) else none, 128)
+    | .ok (none, _) => .err .MissingData
+    | .err .BadValue => .err .BadType        -- `mpt_value_convert` reports a refusing converter as BadType
+    | .err _ => .err .MissingData            -- no number: the element has no value
+    | .null => .null | .oob => .oob | .fault => .fault
+  else
+    match convertNumber tgt s true with
+    | .ok (some bits, _) => .ok (if dest then some (.int bits) else none, 128)
+    | .ok (none, _) => .err .MissingData
+    | .err .BadValue => .err .BadType        -- `mpt_value_convert` reports a refusing converter as BadType
+    | .err _ => .err .MissingData            -- no number: the element has no value
+    | .null => .null | .oob => .oob | .fault => .fault
 
 /-- `mpt_convert_string(from, type, dest)` for the integer target codes -/
 def convertString (tgt : Ty) (s : List Nat) (dest : Bool) : TextRes :=
